@@ -19,6 +19,7 @@ func init() {
 		NotDecided:  "TODO",
 		Assumptions: trustedBase,
 		Run: func(m *Model, s *Sink) {
+			m.RunTextSkip(s, "R-TEXTKEEP") // the parser steps over text only when it is whitespace
 			m.RunLexInput(s, "R-LEXINPUT")
 			m.RunTextDrop(s, "R-TEXTDROP")
 			m.RunTextKeep(s, "R-TEXTKEEP")
